@@ -194,16 +194,19 @@ func (met *cff2CharstringHandler) setVSIndex(index int) error {
 		return nil
 	}
 
-	if index >= len(met.vars.ItemVariationDatas) {
+	if index < 0 || index >= len(met.vars.ItemVariationDatas) {
 		return fmt.Errorf("invalid 'vsindex' %d", index)
 	}
 
 	vars := met.vars.ItemVariationDatas[index]
 	k := int32(len(vars.RegionIndexes)) // number of regions
 	met.scalars = append(met.scalars[:0], make([]float32, k)...)
+	regions := met.vars.VariationRegionList.VariationRegions
 	for i, regionIndex := range vars.RegionIndexes {
-		region := met.vars.VariationRegionList.VariationRegions[regionIndex]
-		met.scalars[i] = region.Evaluate(met.coords)
+		if int(regionIndex) >= len(regions) { // invalid region: keep a zero scalar
+			continue
+		}
+		met.scalars[i] = regions[regionIndex].Evaluate(met.coords)
 	}
 	return nil
 }
